@@ -104,7 +104,6 @@ pub struct MclmcStats<P: HasDims, H: Storable<P>, A: Storable<P>, Pt: Storable<P
     /// full size. The `−energy_change` term corrects for integration error.
     /// See Robnik & Seljak (2023), arXiv:2212.08549.
     pub log_weight: f64,
-    pub tuning: bool,
     #[storable(flatten)]
     pub hamiltonian: H,
     #[storable(flatten)]
@@ -465,7 +464,6 @@ where
             num_steps: info.num_steps,
             energy_change: info.energy_change,
             log_weight: info.energy_change,
-            tuning: self.adapt.is_tuning(),
             hamiltonian: hamiltonian_stats,
             adapt: adapt_stats,
             point: point_stats,
